@@ -139,6 +139,8 @@ def rules_consumption(run, P='C05', rid='.4'):
     cons = [c for c in pops if q.arg(c, None, 'consume') is not None or c.args]
     run.check(len(cons) == 1 and len(pops) == 1, r, fi.short, 'single consuming _select_event call',
               'exactly one _select_event call (the consuming one) is expected in execute_once, found %d' % len(pops), F)
+    if not cons:
+        return
     comp = q.calls_to(run, F, {'Interpreter._compute_steps'})
     run.anchor(len(comp) == 1, r, 'single _compute_steps() call in execute_once')
     compst = q.enclosing_stmt(comp[0])
@@ -168,7 +170,11 @@ def rules_consumption(run, P='C05', rid='.4'):
     # _compute_steps: empty-step branch
     ci = run.fn('Interpreter._compute_steps')
     C = ci.node
-    sel = q.calls_to(run, C, {'Interpreter._select_event'})
+    sel_all = q.calls_to(run, C, {'Interpreter._select_event'})
+    consuming = [c for c in sel_all if c.args or c.keywords]
+    for c in consuming:
+        run.fail(r, ci.short, 'consuming _select_event call in the decision phase', 'an event is consumed before the non-determinism / conflict check has run (or more than once per step)', c)
+    sel = [c for c in sel_all if c not in consuming]
     run.anchor(len(sel) == 1, r, 'single _select_event() peek in _compute_steps')
     run.check(not sel[0].args and not sel[0].keywords, r, ci.short, 'peek without consume',
               '_compute_steps must only peek (consume defaults to False)', sel[0])
@@ -348,7 +354,10 @@ def rules_between(run, P='C05'):
     cfg = build_cfg(F)
     comp = q.calls_to(run, F, {'Interpreter._compute_steps'})
     pops = q.calls_to(run, F, {'Interpreter._select_event'})
-    run.anchor(comp and pops, r, 'peek and pop sites in execute_once')
+    run.anchor(comp, r, '_compute_steps() call in execute_once')
+    if not pops:
+        run.fail(r, fi.short, 'pop site in execute_once', 'the consuming _select_event call is not in execute_once (the pop does not follow the decision phase there)', F)
+        return
     a, b = q.cfgnode(F, comp[0]), q.cfgnode(F, pops[0])
     between = [n for n in cfg.stmt_nodes() if n.id not in (a.id, b.id) and cfg.reaches(a, n) and cfg.reaches(n, b)
                and not cfg.reaches(b, n)]
